@@ -7,6 +7,7 @@ import (
 	"fmt"
 	"sort"
 	"strings"
+	"time"
 
 	of "github.com/contiv/libOpenflow/openflow13"
 
@@ -240,14 +241,85 @@ func c15Histories(r *ev.Run) int64 {
 // decoded, every shape of the controller corpus built, sized and encoded. After each operation the
 // raw registry is compared with its pristine print (an operation that registers, widens or
 // otherwise edits an entry as a side effect is a violation, named by the operation's root kind).
+// lookupSnapshot prints the answer of FindFieldHeaderByName for every registered name, mask off and on
+// (what a caller sees, wherever the library keeps it).
+func lookupSnapshot() string {
+	var b strings.Builder
+	for _, k := range of.VerifRegistryKeys() {
+		for _, mask := range []bool{false, true} {
+			f, err, pn := lookup(k, mask)
+			if f == nil || err != nil || pn != nil {
+				fmt.Fprintf(&b, "%s/%v=!;", k, mask)
+				continue
+			}
+			fmt.Fprintf(&b, "%s/%v=%d/%d/%d/%v;", k, mask, f.Class, f.Field, f.Length, f.HasMask)
+		}
+	}
+	return b.String()
+}
+
+// stateDigest folds the raw registry and the answers of all lookups into one number (the printed
+// forms above are only produced when the number has changed).
+var c15Keys []string
+var c15DigestCalls int
+
+func stateDigest() (h uint64) {
+	defer func() {
+		if recover() != nil {
+			h = 1
+		}
+	}()
+	if c15Keys == nil {
+		c15Keys = of.VerifRegistryKeys()
+	}
+	h = 14695981039346656037
+	mix := func(v uint64) { h = (h ^ v) * 1099511628211 }
+	for _, k := range c15Keys {
+		c, f, l, m, ok := of.VerifRegistryEntry(k)
+		mix(uint64(c)<<32 | uint64(f)<<16 | uint64(l)<<1)
+		if m {
+			mix(3)
+		}
+		if !ok {
+			mix(5)
+		}
+		for _, mask := range []bool{false, true} {
+			x, err := of.FindFieldHeaderByName(k, mask)
+			if err != nil || x == nil {
+				mix(7)
+				continue
+			}
+			mix(uint64(x.Class)<<32 | uint64(x.Field)<<16 | uint64(x.Length)<<1)
+			if x.HasMask {
+				mix(11)
+			}
+			if x.Value != nil || x.Mask != nil {
+				mix(13)
+			}
+		}
+	}
+	c15DigestCalls++
+	if c15DigestCalls%64 == 0 {
+		mix(uint64(len(of.VerifRegistryKeys()))) // entries added to the registry (checked every 64th call: sorting the keys is the expensive part)
+	} else {
+		mix(uint64(len(c15Keys)))
+	}
+	return h
+}
+
 func c15Invariant(r *ev.Run) int64 {
-	pristine := registrySnapshot()
+	pristine := registrySnapshot() + "|" + lookupSnapshot()
+	pristineDigest := stateDigest()
+	te := time.Now()
 	var n int64
 	reported := map[string]bool{}
 	check := func(what, kind string, tree *wire.N) bool {
 		n++
 		r.Add("transitions", 1)
-		if now := registrySnapshot(); now != pristine {
+		if stateDigest() == pristineDigest {
+			return true
+		}
+		if now := registrySnapshot() + "|" + lookupSnapshot(); now != pristine {
 			if !reported[what+kind] {
 				reported[what+kind] = true
 				diff := ""
@@ -259,10 +331,11 @@ func c15Invariant(r *ev.Run) int64 {
 					}
 				}
 				r.Outcome("polluted")
-				r.Violation("registry-modified-by:"+what+":"+kind, fmt.Sprintf("the registry changed (%s) while the library %s a %s", diff, what, kind), map[string]any{"operation": what, "model": tree.String(), "tree": tree})
+				r.Violation("registry-modified-by:"+what+":"+kind, fmt.Sprintf("the registry or the answer of a lookup changed (%s) while the library %s a %s", diff, what, kind), map[string]any{"operation": what, "model": tree.String(), "tree": tree})
 			}
 			// restore so that later operations are judged on their own
 			pristine = now
+			pristineDigest = stateDigest()
 			return false
 		}
 		return true
@@ -276,8 +349,14 @@ func c15Invariant(r *ev.Run) int64 {
 		check("parsed", rootSig(t), t)
 	})
 	r.Completed("(e) registry unchanged after parsing every frame of the switch corpus")
+	r.Set("ms:e1 switch corpus", time.Since(te).Milliseconds())
 	// ... and every frame one field value away from it (small indices, zero and maximal lengths, ...)
 	sel := baseSelector{max: 2048}
+	if !r.Thorough() {
+		// quick: the values and masks of match fields (four fifths of all variations) are left at their
+		// base patterns here; the thorough tier varies them as well
+		sel.skip = func(node *wire.N) bool { return node.K == "oxm" }
+	}
 	for _, b := range c04Bases() {
 		sel.offer(b)
 	}
@@ -291,8 +370,9 @@ func c15Invariant(r *ev.Run) int64 {
 		check("parsed", rootSig(t)+" (one field varied)", t)
 	})
 	if complete {
-		r.Completed("(e) registry unchanged after parsing every single-field variation of the switch corpus bases")
+		r.Completed("(e) registry unchanged after parsing every single-field variation of the switch corpus bases" + map[bool]string{true: "", false: " (match-field values and masks at their base patterns; the thorough tier varies them too)"}[r.Thorough()])
 	}
+	r.Set("ms:e2 variations", time.Since(te).Milliseconds())
 	corpus.Controller(false, r.Expired, func(string, bool) {}, func(t *wire.N) {
 		if modelSize(t) > 65535 {
 			return
@@ -310,6 +390,7 @@ func c15Invariant(r *ev.Run) int64 {
 		}
 	})
 	r.Completed("(e) registry unchanged after building, sizing, encoding and re-parsing every shape of the controller corpus")
+	r.Set("ms:e3 controller", time.Since(te).Milliseconds())
 	corpus.Packets(false, func(t *wire.N) {
 		b, _ := pkt.Encode(t)
 		func() {
@@ -332,6 +413,10 @@ func c15Invariant(r *ev.Run) int64 {
 func c15Worker(w *Worker) {
 	var buf [4]byte
 	var m of.MatchField
+	// mv starts out as a completely decoded field (value and mask attached): the header operations
+	// are about the header word alone, whatever else the struct holds
+	var mv of.MatchField
+	mv.UnmarshalBinary([]byte{0x00, 0x01, 0x07, 0x08, 0xde, 0xad, 0xbe, 0xef, 0xff, 0xff, 0x00, 0xff})
 	var n, bad int64
 	var first uint32
 	for x := uint64(w.Index); x < 1<<32; x += uint64(w.N) {
@@ -347,6 +432,10 @@ func c15Worker(w *Worker) {
 		ok := err == nil && m.Class == uint16(word>>16) && m.Field == uint8((word>>9)&0x7f) && m.HasMask == ((word>>8)&1 == 1) && m.Length == uint8(word)
 		if ok {
 			ok = m.MarshalHeader() == word
+		}
+		if ok {
+			err = mv.UnmarshalHeader(buf[:])
+			ok = err == nil && mv.Class == m.Class && mv.Field == m.Field && mv.HasMask == m.HasMask && mv.Length == m.Length && mv.MarshalHeader() == word
 		}
 		if ok {
 			var f of.MatchField
@@ -392,15 +481,22 @@ func c15(r *ev.Run, replay string) {
 		r.Set("states", 1)
 		return
 	}
+	t0 := time.Now()
+	lap := func(name string) { r.Set("ms:"+name, time.Since(t0).Milliseconds()); t0 = time.Now() }
 	a := c15Table(r)
+	lap("a table")
 	c := c15Histories(r)
+	lap("c histories")
 	c += c15Invariant(r)
+	lap("e invariance")
 	RunSharded(r, NumWorkers(), false)
+	lap("b header words")
 	words := r.Counter("header_words")
 	if words == 1<<32 {
 		r.Completed("(b) all 2^32 header words: UnmarshalHeader gives (class, field, mask, length) of the word and MarshalHeader gives the word back")
 	}
 	d := c15Concurrent(r)
+	lap("d schedules and race pass")
 	r.Set("states", a+c+words+d)
 	r.Set("lookup_states", a)
 	r.Set("history_sequences", c)
